@@ -162,6 +162,10 @@ func CheckC15(run *evid.Run) {
 				continue
 			}
 			keys := o.Set.Keys()
+			// after queries with rejected bounds the log must still accept writers and iterate again
+			defer func(l *ipfslog.IPFSLog, r int) {
+				c15AfterQueries(run, h, l, r, size)
+			}(l, r)
 			for qn := 0; qn < perLog; qn++ {
 				q := iterQuery{Upper: "default", Lower: "none"}
 				switch rng.Intn(10) {
@@ -205,6 +209,11 @@ func CheckC15(run *evid.Run) {
 				case 8:
 					q.Upper = "unknown-lte"
 					q.UpperH = []string{foreignCid(fmt.Sprint(rng.Int63())).String()}
+					// an unknown bound among known ones is still an unknown bound
+					for extra := rng.Intn(3); extra > 0; extra-- {
+						q.UpperH = append(q.UpperH, keys[rng.Intn(size)])
+					}
+					rng.Shuffle(len(q.UpperH), func(a, b int) { q.UpperH[a], q.UpperH[b] = q.UpperH[b], q.UpperH[a] })
 				case 9:
 					q.Upper = "unknown-lt"
 					q.UpperH = []string{foreignCid(fmt.Sprint(rng.Int63())).String()}
